@@ -194,6 +194,7 @@ void h_prf_close4(void)
 int c_prf_open(struct prf *prf, const char *path, long nrows)
 __CPROVER_requires(__CPROVER_is_fresh(prf, sizeof(struct prf)) && nrows >= 0 && nrows <= MAXROWS && DIAG_PRE && LOW_PRE)
 __CPROVER_requires(nrows == 0 || (g_k >= 0 && g_k < nrows))
+__CPROVER_requires(w_nrows == nrows)      /* witness for the native replay driver */
 __CPROVER_assigns(*prf, DIAG_FRAME, g_lowfail, g_open_n, g_open_ret, g_open_mode)
 __CPROVER_ensures((RV == 0) == (g_lowfail == OLD(g_lowfail)))
 __CPROVER_ensures(RV == 0 || (RV == -1 && g_err > OLD(g_err)))
